@@ -3,6 +3,8 @@ from core import Case
 from . import rtgen as R
 
 ID = "C12"
+# theorems of Props/Tables.lean over the decision logic TRANSLATED from /repo/src/lib.rs on every run (DESIGN 11.7)
+TABLE_THEOREMS = ['src_getFieldTable_eq', 'src_getField_eq']
 THEOREMS = ['Portus.C12.get_field_spec', 'Portus.C12.get_field_no_panic', 'Portus.C12.getField_eq', 'Portus.C12.stale_scope', 'Portus.C12.value_is_own_slot', 'Portus.C12.declared_report_variable_reads_its_slot', 'Portus.C12.check_model']
 SPEC_IS_ORACLE = True
 KEEP = {"RP", "GF", "GFP", "SP", "CU"}
@@ -27,6 +29,12 @@ def gen(ctx):
     # "a scope from a different compilation yields the stale-program error" rests on two compilations of one process never sharing a
     # uid, however many lie between them (round 5: uid = pid << 16 | counter as u16 repeats after 65536 scope creations)
     yield Case("UID", "seq 70000", tags=("uids-over-a-long-history",))
+    # the short name of a Report variable is NOT a name of the scope ("acked" vs "Report.acked"): not-found, never the report slot
+    for f in ("acked", "rtt", "Report.acked", "cwndcap", "Report.cwndcap"):
+        yield Case("RUN", "ALG - 1 PROGS p1=%s NF sp:p1:- OR gf:%s SCRIPT 5:RD.1 5:CR.1.10.1460.1.2.3.4.- 5:MS.1.u:p1.7;9 5:MS.1.u:p1.-" % (R.hx(R.P1), R.hx(f)), tags=("short-name",))
+    _pq = "(def (Report (Report.x 0) (y 1))) (when true (:= Report.Report.x (+ Report.y 9)) (report))"
+    for f in ("Report.Report.x", "Report.x", "Report.y", "x", "y"):
+        yield Case("RUN", "ALG - 1 PROGS q=%s NF sp:q:- OR gf:%s SCRIPT 5:RD.1 5:CR.1.10.1460.1.2.3.4.- 5:MS.1.u:q.10;1 5:MS.1.u:q.-" % (R.hx(_pq), R.hx(f)), tags=("qualified-block-member",))
     for a in R.own_scope_cases(rng, 120 if ctx.thorough else 36):
         yield Case("RUN", a, tags=("own-scope",))
     for _ in range(40000 if ctx.thorough else 3000):
